@@ -1223,6 +1223,18 @@ class VM:
 
         return False
 
+    @staticmethod
+    def _is_canonical_numeric(key_str: str) -> bool:
+        """Is key_str the ToString of some number (CanonicalNumericIndexString)?"""
+        if key_str == "-0":
+            return True
+        if not key_str or not (key_str[0] in "-IN" or key_str[0].isdigit()):
+            return False
+        try:
+            return to_string(to_number(key_str)) == key_str
+        except Exception:
+            return False
+
     def _get_property(self, obj: JSValue, key: JSValue) -> JSValue:
         """Get property from object."""
         if obj is UNDEFINED or obj is NULL:
@@ -1243,6 +1255,10 @@ class VM:
                     return obj.get_index(idx)
             except ValueError:
                 pass
+            if self._is_canonical_numeric(key_str):
+                # "-1", "1.5", "-0", "NaN": numeric keys that are not valid indices
+                # never name a property of a typed array
+                return UNDEFINED
             if key_str == "length":
                 return obj.length
             if key_str == "BYTES_PER_ELEMENT":
@@ -2755,6 +2771,8 @@ class VM:
                     value = self._to_number(value)
                 obj.set_index(idx, value)
                 return
+            if self._is_canonical_numeric(key_str):
+                return  # not a valid index: the store is ignored
             obj.set(key_str, value)
             return
 
